@@ -185,3 +185,25 @@ Definition seg_repolled (seg : list ev) : bool :=
                  (polled_streams seg)
   end.
 Definition obs_repoll_ok (tr : list ev) : bool := forallb seg_repolled (split_polls tr None).
+
+(** a publisher stream that has ended is never asked again (the StreamMap drops it) *)
+Fixpoint no_poll_after_end (ended : list N) (tr : list ev) : bool :=
+  match tr with
+  | [] => true
+  | EStream j r :: t =>
+    if mem_n j ended then false
+    else no_poll_after_end (match r with SEnd => j :: ended | _ => ended end) t
+  | _ :: t => no_poll_after_end ended t
+  end.
+Definition obs_no_poll_after_end (tr : list ev) : bool := no_poll_after_end [] tr.
+
+(** once the registration channel is closed the router takes nothing more from its publishers:
+    it hands over what it holds, flushes and finishes (C16: bounded time, whatever the publishers do) *)
+Fixpoint no_pull_after_close (closed : bool) (tr : list ev) : bool :=
+  match tr with
+  | [] => true
+  | EClose _ :: t => no_pull_after_close true t
+  | EStream _ _ :: t => if closed then false else no_pull_after_close closed t
+  | _ :: t => no_pull_after_close closed t
+  end.
+Definition obs_no_pull_after_close (tr : list ev) : bool := no_pull_after_close false tr.
